@@ -56,6 +56,19 @@ theorem C15_script_skip_wins (tcs : List TC) (c : Int) (outs : List Out)
       ∃ o, outs[i]? = some o ∧ o.status = .code (scriptSkip tcs) :=
   Scrut.Exec.execScript_skip_wins tcs c outs hc h
 
+/-- **C15** (Cram, since fix 03b50b5): the same when the script ran into the time limit after the test case with the
+skip code had ended -- the document is skipped, not failed; without such an output the timeout is reported. -/
+theorem C15_script_skip_wins_timeout (tcs : List TC) (outs : List Out)
+    (h : ∃ o ∈ outs, o.status = .code (scriptSkip tcs)) :
+    ∃ i, execScript tcs .timeout outs = some (.skipped i) ∧
+      ∃ o, outs[i]? = some o ∧ o.status = .code (scriptSkip tcs) :=
+  Scrut.Exec.execScript_skip_wins_timeout tcs outs h
+
+theorem C15_script_timeout_without_skip (tcs : List TC) (outs : List Out)
+    (h : ∀ o ∈ outs, o.status ≠ .code (scriptSkip tcs)) :
+    execScript tcs .timeout outs = some (.timeout true 0 [⟨.timeout, false, false⟩]) :=
+  Scrut.Exec.execScript_timeout_no_skip tcs outs h
+
 /-- **C15** (Cram): nothing else skips — a skipped result means the script itself or the parsed
 output at that index ended with the skip code. -/
 theorem C15_script_skip_cause (tcs : List TC) (script : Status) (outs : List Out) (i : Nat)
